@@ -5,8 +5,12 @@ package main
 
 import (
 	"bytes"
+	"crypto/sha256"
 	"encoding/hex"
 	"fmt"
+	"os"
+	"os/exec"
+	"strings"
 
 	"github.com/theQRL/go-qrllib/common"
 	"github.com/theQRL/go-qrllib/xmss"
@@ -30,7 +34,36 @@ var kats = []kat{
 		"0103003a7d5125fd1d014f972c05b715cfa2f6cd", "0103008b0e18dd0bac2c3fdc9a48e10fc466eef899ef074449d12ddf050317b2083527aee74bc3"},
 }
 
+// freshChild: VERIF_C06_FRESH="w:h:hf" — in a process that has not touched the library yet: one custom-w verification
+// sized for (w, h), then a key of height h and its first signature; prints hex(pk) hex(sha256(sig)) len(sig).
+func freshChild(sel string) {
+	var w, h, hf int
+	fmt.Sscanf(strings.ReplaceAll(sel, ":", " "), "%d %d %d", &w, &h, &hf)
+	var pk [67]byte
+	pk[0], pk[1] = byte(hf), byte(h/2)
+	blob := make([]byte, refxmss.SigSize(w, h))
+	drv.Call(func() { xmss.VerifyWithCustomWOTSParamW([]byte("first call"), blob, pk, uint32(w)) })
+	seed := e1.Seed(2, 0)
+	out := drv.Call(func() {
+		k := xmss.NewXMSSFromSeed(seed, uint8(h), xmss.HashFunction(hf), common.SHA256_2X)
+		sig, err := k.Sign(msgs[2])
+		if err != nil {
+			panic(err.Error())
+		}
+		p := k.GetPK()
+		d := sha256.Sum256(sig)
+		fmt.Printf("%s %s %d\n", hex.EncodeToString(p[:]), hex.EncodeToString(d[:]), len(sig))
+	})
+	if out != "ok" {
+		fmt.Println("FAILED " + strings.ReplaceAll(out, "\n", " "))
+	}
+}
+
 func main() {
+	if s := os.Getenv("VERIF_C06_FRESH"); s != "" {
+		freshChild(s)
+		return
+	}
 	var extra []*drv.Domain
 	extra = append(extra, &drv.Domain{Name: "known-answers", Size: int64(len(kats)), Chunk: 1,
 		Desc: "the repository's pinned vectors (zero seed, SHAKE-128, h=4 and h=6: PK, address, legacy address) must be reproduced by the REFERENCE (anchors the reference) and by the library",
@@ -135,6 +168,39 @@ func main() {
 				}
 			}}
 	}
+	extra = append(extra, msgDomain("messages-seq-h8", "q", mk([]int{8}, []int{4})[1:2], false))
+	extra = append(extra, &drv.Domain{Name: "keygen-after-custom-w", Size: 2 * 3, Chunk: 1,
+		Desc: "in a fresh process whose FIRST library call is VerifyWithCustomWOTSParamW(w = 4 / 256) on a blob sized for height 4: the key of height 4 generated afterwards and its first signature equal the reference (parameters remembered from a call with another w must not leak into key generation), 3 hash functions",
+		Run: func(c *drv.Ctx, lo, hi int64) {
+			self, _ := os.Executable()
+			for i := lo; i < hi; i++ {
+				c.At(i)
+				w, hf := []int{4, 256}[i/3], int(i%3)
+				cmd := exec.Command(self)
+				cmd.Env = append(os.Environ(), fmt.Sprintf("VERIF_C06_FRESH=%d:4:%d", w, hf))
+				var eb bytes.Buffer
+				cmd.Stderr = &eb
+				out, err := cmd.Output()
+				c.Eval(1)
+				c.Nontrivial(1)
+				if err != nil {
+					if strings.Contains(eb.String(), "go-qrllib") {
+						c.Fail(i, "fresh-process-crashed", map[string]any{"w": w, "hash": hf, "stderr": eb.String()})
+					} else {
+						c.Cap("a child process could not be run (infrastructure): " + err.Error())
+					}
+					continue
+				}
+				seed := e1.Seed(2, 0)
+				ref := refxmss.NewKey(seed[:], 4, refxmss.Hash(hf))
+				d := sha256.Sum256(ref.Sign(0, msgs[2]))
+				want := fmt.Sprintf("%s %s %d", hex.EncodeToString(ref.PK()), hex.EncodeToString(d[:]), refxmss.SigSize(16, 4))
+				if got := strings.TrimSpace(string(out)); got != want {
+					c.Fail(i, "key-or-signature-after-custom-w-verify-differs-from-reference", map[string]any{"w_of_the_first_call": w, "hash": hf, "expected(pk sig-digest sig-len)": want, "observed": got})
+				}
+				c.Outcome("equal")
+			}
+		}})
 	extra = append(extra, msgDomain("messages-seq-q", "q", mk([]int{4}, []int{0, 1, 3}), false))
 	extra = append(extra, msgDomain("messages-fresh-q", "q", mk([]int{4}, []int{2}), true))
 	extra = append(extra, msgDomain("messages-seq-t", "t", append(mk([]int{4, 6}, []int{0, 1, 2, 3}), mk([]int{8}, []int{4})...), false))
